@@ -167,7 +167,11 @@ func c10StartServer(dir string, cfg c10Cfg, imp *c10Imp) (tcpAddr, udpAddr strin
 	}
 	tars.AddServantWithContext(new(c10idl.Srv), imp, "VerifApp.C10Server.TcpObj")
 	tars.AddServantWithContext(new(c10idl.Srv), imp, "VerifApp.C10Server.UdpObj")
-	go tars.Run()
+	runDone := make(chan struct{})
+	go func() {
+		tars.Run() // returns only when the application shuts down - at start-up: because an adapter could not bind
+		close(runDone)
+	}()
 	tcpAddr, udpAddr = fmt.Sprintf("127.0.0.1:%d", tp), fmt.Sprintf("127.0.0.1:%d", up)
 	ok := false
 	for i := 0; i < 400; i++ {
@@ -203,41 +207,14 @@ func c10StartServer(dir string, cfg c10Cfg, imp *c10Imp) (tcpAddr, udpAddr strin
 		return "", "", fmt.Errorf("udp adapter on %s does not answer", udpAddr)
 	}
 	rogger.SetLevel(rogger.OFF)
-	if err := c10ProveOurs(tcpAddr, udpAddr, imp); err != nil {
-		return "", "", err
+	// Between probing a free port and the server's bind another process (a dozen harnesses run side by side) can take
+	// the port: something may answer there, but this process's application has then given up (Listen failed)
+	select {
+	case <-runDone:
+		return "", "", fmt.Errorf("the application stopped during start-up (an adapter could not bind %s / %s: port taken by another process?)", tcpAddr, udpAddr)
+	case <-time.After(150 * time.Millisecond):
 	}
 	return tcpAddr, udpAddr, nil
-}
-
-// Between probing a free port and the server's bind another process (a dozen harnesses run side by side) can take
-// the port: something answers there, but not this process's server. A call of the scripted servant with a token of its
-// own must show up in this process's invocation log, over each transport, before any scenario is run.
-func c10ProveOurs(tcpAddr, udpAddr string, imp *c10Imp) error {
-	for k, pa := range [][2]string{{"tcp", tcpAddr}, {"udp", udpAddr}} {
-		token := int32(-1000 - k)
-		q := c10Req{Ver: c10VerTars, Func: "calc", ID: 77, Token: token, Servant: "probe"}
-		c10Encode(&q)
-		seen := false
-		for try := 0; try < 40 && !seen; try++ {
-			c, err := net.DialTimeout(pa[0], pa[1], time.Second)
-			if err != nil {
-				time.Sleep(50 * time.Millisecond)
-				continue
-			}
-			c.Write(q.Pkg)
-			for w := 0; w < 25 && !seen; w++ {
-				time.Sleep(10 * time.Millisecond)
-				imp.mu.Lock()
-				seen = imp.finished[token] > 0
-				imp.mu.Unlock()
-			}
-			c.Close()
-		}
-		if !seen {
-			return fmt.Errorf("%s %s is not served by this process (port taken by another process?)", pa[0], pa[1])
-		}
-	}
-	return nil
 }
 
 // ---------- sched scenarios: a TarsServer of our own around a recording wrapper of the real Protocol ----------
@@ -300,9 +277,6 @@ func c10StartSched(cfg c10Cfg, imp *c10Imp) (w *c10Wrap, tcpAddr, udpAddr string
 		go srv.Serve()
 	}
 	rogger.SetLevel(rogger.OFF)
-	if err := c10ProveOurs(tcpAddr, udpAddr, imp); err != nil {
-		return nil, "", "", err
-	}
 	return w, tcpAddr, udpAddr, nil
 }
 
@@ -314,12 +288,14 @@ type c10Collector struct {
 	mu   sync.Mutex
 	obs  [][]byte
 	conn []int
+	ns   []int64 // per reply: when it was read
 }
 
 func (c *c10Collector) add(ci int, b []byte) {
 	c.mu.Lock()
 	c.obs = append(c.obs, append([]byte(nil), b...))
 	c.conn = append(c.conn, ci)
+	c.ns = append(c.ns, time.Now().UnixNano())
 	c.mu.Unlock()
 }
 func (c *c10Collector) count() int {
@@ -443,11 +419,13 @@ func c10RunOnce(s *c10Scn, addr string, imp *c10Imp) error {
 						d += time.Second
 					}
 					time.Sleep(d)
+					s.Reqs[i].SendNs = time.Now().UnixNano()
 					if _, err := conns[ci].Write(s.Reqs[i].Pkg); err != nil {
 						setErr(err)
 					}
 					continue
 				}
+				s.Reqs[i].SendNs = time.Now().UnixNano() // not later than the server's receipt (TCP: before the first write of the stream)
 				if s.UDP {
 					if _, err := conns[ci].Write(s.Reqs[i].Pkg); err != nil {
 						setErr(err)
@@ -469,6 +447,9 @@ func c10RunOnce(s *c10Scn, addr string, imp *c10Imp) error {
 					return
 				}
 				stream = stream[n:]
+				if s.ChunkPauseMs > 0 && len(stream) > 0 {
+					time.Sleep(time.Duration(s.ChunkPauseMs) * time.Millisecond)
+				}
 			}
 		}(ci)
 	}
@@ -529,6 +510,7 @@ func c10RunOnce(s *c10Scn, addr string, imp *c10Imp) error {
 	col.mu.Lock()
 	s.Obs = toB(col.obs)
 	s.ObsConn = append([]int(nil), col.conn...)
+	s.ObsNs = append([]int64(nil), col.ns...)
 	col.mu.Unlock()
 	imp.mu.Lock()
 	for i := range s.Reqs {
